@@ -31,6 +31,14 @@ def ud(module, subtype, version, data):
     CALLS.append({"kind": "ud", "module": module, "subtype": subtype, "version": version, "data": b,
                   "is_mv": isinstance(data, memoryview)})
     beh = b[:1]
+    if beh in (b"X", b"Y", b"Z") and isinstance(data, memoryview):
+        data.release()              # a parser that cleans up after itself ("with data:" / try..finally: data.release())
+    if beh == b"X":
+        raise ValueError("fx plugin failure after releasing its view")
+    if beh == b"Y":
+        return None
+    if beh == b"Z":
+        return json.dumps(ud_result(module, subtype, version, b))
     if beh == b"R":
         raise ValueError("fx plugin failure for " + b[:9].decode("latin-1"))
     if beh == b"N":
